@@ -41,6 +41,31 @@ class Stream:
         self.measure()
 
 
+def _sgen(self):
+    """Lazy *sync* generator of the stream's items."""
+    for i in range(self.L):
+        self.measure()
+        o = Obj(self.base + i * self.step)
+        self.refs.append(weakref.ref(o))
+        yield o
+        del o
+    self.measure()
+
+
+def _sized(self):
+    """A re-iterable, *sized* view that still creates its items on demand."""
+    st = self
+
+    class SizedLazy:
+        def __len__(self_):
+            return st.L
+
+        def __iter__(self_):
+            return _sgen(st)
+
+    return SizedLazy()
+
+
 class Inner:
     """A tiny async iterator (weakly referenceable) used as an item of an outer stream."""
 
@@ -138,6 +163,10 @@ def _mk():
     T["dropwhile"] = (lambda s, n: A.dropwhile(lambda x: x.n < 3, s[0].gen()), 1, "it", lambda n: 2)
     T["filterfalse"] = (lambda s, n: A.filterfalse(_false, s[0].gen()), 1, "it", lambda n: 2)
     T["islice"] = (lambda s, n: A.islice(s[0].gen(), 2, None, n), 1, "it", lambda n: 2)
+    T["islice_skip5"] = (lambda s, n: A.islice(s[0].gen(), 5, None), 1, "it", lambda n: 2)
+    T["map_sized_sync"] = (lambda s, n: A.map(_first, _sized(s[0])), 1, "it", lambda n: 2)
+    T["zip_sized_sync"] = (lambda s, n: A.zip(_sized(s[0]), s[1].gen()), 2, "it", lambda n: 4)
+    T["min_sized_sync"] = (lambda s, n: A.min(_sized(s[0])), 1, "aw", lambda n: 3)
     T["pairwise"] = (lambda s, n: A.pairwise(s[0].gen()), 1, "it", lambda n: 3)
     T["starmap"] = (lambda s, n: A.starmap(_first, A.zip(s[0].gen())), 1, "it", lambda n: 2)
     T["takewhile"] = (lambda s, n: A.takewhile(_true, s[0].gen()), 1, "it", lambda n: 2)
@@ -319,7 +348,7 @@ def jobs(tier):
 
 LEVEL = "other"
 BOUNDS = {
-    "quick": "stream length L = 0..12 (symbolic), window n = 1..3 (batched size, islice step, nlargest/nsmallest n); live source items counted (weak references after gc.collect()) at every pull of every source, i.e. after every consumer step; 24 streaming tools and 8 single-pass aggregations; tee: 2 children over 8 items, every progress pattern of 6 symbolic + 2 fixed steps, child 1 closed early before step 0..6 or never; the concrete pre-flight additionally runs L=30, 60 and 200",
+    "quick": "stream length L = 0..12 (symbolic), window n = 1..3 (batched size, islice step, nlargest/nsmallest n); live source items counted (weak references after gc.collect()) at every pull of every source, i.e. after every consumer step; 28 streaming tools / forms and 9 single-pass aggregations (incl. sync sources that are sized but create their items lazily, and islice skipping 5 items); tee: 2 children over 8 items, every progress pattern of 6 symbolic + 2 fixed steps, child 1 closed early before step 0..6 or never; the concrete pre-flight additionally runs L=30, 60 and 200",
     "thorough": "L = 0..24",
 }
 OUTSIDE = ["streams of 50..2000 items: the same constant bound is claimed only up to L (symbolically) and L=200 (pre-flight)", "cycle, lagging tee children, sorted and the collection builders accumulate by design"]
